@@ -176,7 +176,8 @@ def pytorch_stft_frame_computer(
             f"Expected window to have shape {(frame_length,)}; got {window.shape}"
         )
     sig_len = sig.size(0)
-    if sig_len < frame_length // 2 + 1:
+    if sig_len < frame_length // 2 + 1 or sig_len + frame_shift // 2 < frame_shift:
+        # no frames (the second case needs a frame shift longer than the frame)
         return sig.new_empty((0, num_filts + int(include_energy)))
     zero = sig.new_zeros(1)
     if not centered:
